@@ -12,6 +12,7 @@ import (
 	"google.golang.org/grpc/metadata"
 
 	"github.com/oxia-db/oxia/common/constant"
+	"github.com/oxia-db/oxia/coordinator/model"
 	"github.com/oxia-db/oxia/proto"
 )
 
@@ -431,8 +432,18 @@ func (c *cluster) finishCall(call *asyncCall, err error) {
 			c.mon.onLeader(call.node, call.term)
 			if c.el != nil && c.el.call == call && c.el.phase == "bl-inflight" {
 				c.el.phase = "deleting"
+				if call.lose {
+					c.event("become-leader to %d term=%d: the answer is lost on its way to the coordinator", call.node, call.term)
+					c.el.phase = "failed"
+				}
+				if call.crashCoord {
+					c.el.phase = "crash-in-store"
+				}
 			}
 		} else {
+			c.mu.Lock()
+			c.parkSteadyStore = false
+			c.mu.Unlock()
 			if !call.blEmitted && n.up && n.leaderHasTracker() {
 				c.emitBL(call)
 			}
@@ -500,6 +511,12 @@ func (c *cluster) step(st string) bool {
 		ok = c.stepGrace()
 	case "bl", "blfail":
 		ok = c.stepBecomeLeader(f[0] == "blfail")
+	case "bllost":
+		ok = c.stepBecomeLeaderX(false, true, false)
+	case "blcrash":
+		ok = c.stepBecomeLeaderX(false, false, true)
+	case "ntlost":
+		ok = c.stepNewTermX(atoi(f[1]), false, true)
 	case "bltimeout":
 		ok = c.stepBLTimeout()
 	case "ds", "dsfail":
@@ -605,15 +622,42 @@ func (c *cluster) stepStart() bool {
 	return true
 }
 
-// expectElectionStart waits for the Store that begins an election (term++) and for its NewTerm requests.
+// expectElectionStart waits for the beginning of an election attempt and for its NewTerm requests.  An attempt begins
+// with the Store of {Election, term+1}; the two other observable beginnings are reported to the model as gaps and
+// followed like any other election (the monitors judge what the nodes do afterwards):
+//   - the Store of {Election, same term}: an attempt that re-uses the term of the previous one;
+//   - NewTerm requests of a term that the metadata store does not hold (no Store before them).
 func (c *cluster) expectElectionStart() bool {
 	before := c.lastMeta.Term
+	floor := before
+	if c.el != nil && c.el.inc == c.coordInc && c.el.term > floor {
+		floor = c.el.term
+	}
+	attemptOver := c.el == nil || c.el.inc != c.coordInc || c.el.phase == "failed" || c.el.phase == "abandoned" || c.el.phase == "idle" || c.el.phase == "done"
+	unstored := int64(-1)
+	has := false
 	if !c.waitFor("election store", timerWait, func() bool {
 		c.failCatchupGates()
 		c.mu.Lock()
 		defer c.mu.Unlock()
+		top := before
 		for _, md := range c.stores[c.storesSeen:] {
 			if md.Term > before {
+				return true
+			}
+			if md.Term == before && md.Status == model.ShardStatusElection && attemptOver {
+				return true
+			}
+			if md.Term > top {
+				top = md.Term
+			}
+		}
+		for _, g := range c.gates {
+			if g.kind != "newterm" || g.fromInc != c.coordInc || g.ctx.Err() != nil || g.term <= top {
+				continue
+			}
+			if g.term > floor || c.el == nil || c.el.inc != c.coordInc {
+				unstored, has = g.term, true
 				return true
 			}
 		}
@@ -622,7 +666,33 @@ func (c *cluster) expectElectionStart() bool {
 		return false
 	}
 	c.harvestStores()
+	if has && (c.el == nil || c.el.term != unstored || c.el.inc != c.coordInc || c.el.phase == "abandoned" || c.el.phase == "failed") {
+		c.beginUnstoredElection(unstored)
+	}
 	return c.expectNewTermGates()
+}
+
+// beginUnstoredElection: NewTerm requests of a term the metadata store does not hold.
+func (c *cluster) beginUnstoredElection(term int64) {
+	ens, rem := c.ids(c.lastMeta.Ensemble), c.ids(c.lastMeta.RemovedNodes)
+	if c.swapInFlight && c.swapFrom != 0 {
+		var e2 []int
+		for _, x := range ens {
+			if x != c.swapFrom {
+				e2 = append(e2, x)
+			}
+		}
+		ens = append(e2, c.swapTo)
+		rem = append(rem, c.swapFrom)
+	}
+	c.event("election of term %d begins without a store (the metadata store holds term %d, status %v)", term, c.lastMeta.Term, c.lastMeta.Status)
+	c.stats["model-gap:election-term-not-stored"]++
+	c.skipModel("the coordinator hands out a term that its metadata store does not hold (the model's elections own a durable term)")
+	c.stats["elections"]++
+	c.killCatchups()
+	sz := len(ens) + len(rem)
+	c.el = &election{term: term, ens: ens, removed: rem, size: sz, majority: sz/2 + 1, resp: map[int]*ntResp{},
+		phase: "quorum", deleted: map[int]bool{}, swap: c.swapInFlight, inc: c.coordInc, unstored: true}
 }
 
 func (c *cluster) expectNewTermGates() bool {
@@ -646,6 +716,12 @@ func (c *cluster) expectNewTermGates() bool {
 func (c *cluster) ntGate(n int) *gate {
 	if c.el == nil {
 		return nil
+	}
+	// (an attempt that re-uses the term of the previous one: the withdrawn requests of the old attempt are not its requests)
+	if g := c.findGate(func(g *gate) bool {
+		return g.kind == "newterm" && g.to == n && g.term == c.el.term && g.fromInc == c.coordInc && g.ctx.Err() == nil
+	}); g != nil {
+		return g
 	}
 	return c.findGate(func(g *gate) bool {
 		return g.kind == "newterm" && g.to == n && g.term == c.el.term && g.fromInc == c.coordInc
@@ -688,7 +764,10 @@ func (c *cluster) deliverNewTerm(n *node, req *proto.NewTermRequest) (*proto.New
 	return res, r, nil
 }
 
-func (c *cluster) stepNewTerm(id int, fail bool) bool {
+func (c *cluster) stepNewTerm(id int, fail bool) bool { return c.stepNewTermX(id, fail, false) }
+
+// stepNewTermX: lose = the node handles the request, the answer never reaches the coordinator (its call fails).
+func (c *cluster) stepNewTermX(id int, fail bool, lose bool) bool {
 	el := c.el
 	n := c.node(id)
 	if el == nil || n == nil || (el.phase != "quorum" && el.phase != "grace") {
@@ -715,6 +794,10 @@ func (c *cluster) stepNewTerm(id int, fail bool) bool {
 		res, r, err = c.deliverNewTerm(n, g.req.(*proto.NewTermRequest))
 		if r == nil {
 			return false
+		}
+		if lose && err == nil {
+			c.event("new-term to %d term=%d: the answer is lost on its way to the coordinator", id, el.term)
+			res, r, err = nil, &ntResp{}, errUnavailable
 		}
 	}
 	el.resp[id] = r
@@ -854,9 +937,16 @@ func (c *cluster) electionFailed(why string) {
 	c.expectElectionStart()
 }
 
-func (c *cluster) stepBecomeLeader(fail bool) bool {
+func (c *cluster) stepBecomeLeader(fail bool) bool { return c.stepBecomeLeaderX(fail, false, false) }
+
+// stepBecomeLeaderX: lose = the node processes BecomeLeader, the coordinator's call fails (answer lost / timeout);
+// crash = the coordinator process dies inside the final store that follows the successful BecomeLeader and is restarted.
+func (c *cluster) stepBecomeLeaderX(fail, lose, crash bool) bool {
 	el := c.el
 	if el == nil || el.phase != "bl-pending" {
+		return false
+	}
+	if crash && len(el.removed) > 0 {
 		return false
 	}
 	g := c.findGate(func(g *gate) bool { return g.kind == "becomeleader" && g.term == el.term && g.fromInc == c.coordInc })
@@ -882,6 +972,12 @@ func (c *cluster) stepBecomeLeader(fail bool) bool {
 		}
 	}
 	sort.Ints(fs)
+	c.mu.Lock()
+	c.pendLose, c.pendCrash = lose, crash
+	if crash {
+		c.parkSteadyStore, c.storeParked = true, false
+	}
+	c.mu.Unlock()
 	call := c.startCall("bl", n, el.term, fs, resps, startAck, g, func(ctx context.Context) (any, error) {
 		return n.rpcBecomeLeader(ctx, req)
 	})
@@ -899,6 +995,10 @@ func (c *cluster) startCall(kind string, n *node, term int64, fs []int, resps ma
 	c.mu.Lock()
 	if n.dbCommit > call.initCommit {
 		call.initCommit = n.dbCommit
+	}
+	if kind == "bl" {
+		call.lose, call.crashCoord = c.pendLose, c.pendCrash
+		c.pendLose, c.pendCrash = false, false
 	}
 	c.mu.Unlock()
 	c.mu.Lock()
@@ -921,7 +1021,12 @@ func (c *cluster) startCall(kind string, n *node, term int64, fs []int, resps ma
 		cancel()
 		c.mu.Lock()
 		call.done, call.err = true, err
+		lose := call.lose
 		c.mu.Unlock()
+		if lose && err == nil {
+			g.done <- gateResult{nil, errUnavailable}
+			return
+		}
 		g.done <- gateResult{res, err}
 	}()
 	return call
@@ -960,6 +1065,10 @@ func (c *cluster) afterCoordinator() {
 			return
 		}
 		switch el.phase {
+		case "crash-in-store":
+			c.coordinatorDiesInFinalStore()
+			c.settle()
+			return
 		case "failed":
 			if el.retried {
 				return
@@ -1280,6 +1389,7 @@ func (c *cluster) stepTruncate(l, f int, fail bool) bool {
 	}
 	c.mon.onTruncate(call, l, f, req, res)
 	c.mon.onRolledBack(l, f, req.Term, logBefore, c.shadowLog(f))
+	c.mon.afterTruncate()
 	c.release(g, res, nil)
 	return true
 }
@@ -1868,10 +1978,26 @@ func (c *cluster) stepSwap(from, to int) bool {
 	c.failCatchupGates()
 	c.swapDone = make(chan error, 1)
 	c.swapInFlight = true
+	c.swapFrom, c.swapTo = from, to
 	ctl := c.ctl
 	go func() { c.swapDone <- ctl.SwapNode(srv(a), srv(b)) }()
 	c.expectElectionStart()
 	return true
+}
+
+// coordinatorDiesInFinalStore: BecomeLeader has succeeded; the coordinator is about to store {SteadyState, leader};
+// the process dies inside that Store call (nothing is stored) and a new coordinator starts from the stored metadata.
+func (c *cluster) coordinatorDiesInFinalStore() {
+	if !c.waitFor("the coordinator to reach its final store", shortWait, func() bool {
+		c.mu.Lock()
+		defer c.mu.Unlock()
+		return c.storeParked
+	}) {
+		return
+	}
+	c.event("coordinator dies inside the final store of the election of term %d", c.el.term)
+	c.stats["coordinator-crashes-in-final-store"]++
+	c.restartCoordinator(true)
 }
 
 func (c *cluster) stepCoordRestart() bool {
@@ -1879,19 +2005,29 @@ func (c *cluster) stepCoordRestart() bool {
 		return false
 	}
 	c.event("coordinator restarts")
+	return c.restartCoordinator(false)
+}
+
+// restartCoordinator: abandon = the old incarnation is stuck inside a call that never returns (it died there).
+func (c *cluster) restartCoordinator(abandon bool) bool {
 	c.stats["coordinator-restarts"]++
 	old := c.ctl
 	c.coordStopped = true
+	c.mu.Lock()
+	c.parkSteadyStore = false
+	c.mu.Unlock()
 	closed := make(chan struct{})
 	go func() { _ = old.Close(); close(closed) }()
-	c.waitFor("old coordinator to stop", shortWait, func() bool {
-		select {
-		case <-closed:
-			return true
-		default:
-			return false
-		}
-	})
+	if !abandon {
+		c.waitFor("old coordinator to stop", shortWait, func() bool {
+			select {
+			case <-closed:
+				return true
+			default:
+				return false
+			}
+		})
+	}
 	// requests of the old incarnation die with it (their contexts are cancelled); running BecomeLeader calls
 	// see the cancellation too
 	c.waitFor("calls of the old coordinator to end", shortWait, func() bool {
